@@ -29,6 +29,21 @@ def num(s):
     return float(Fraction(s))
 
 
+def jnp_mean(x, axis=None):
+    from jax import numpy as jnp
+    return jnp.mean(x, axis=axis)
+
+
+def lexpr(e):
+    """entry of a list-valued argument (interpolation points / values, mixing matrices): whole numbers are written as
+    Python ints, as users write them"""
+    if isinstance(e, str) and e != "t":
+        fr = Fraction(e)
+        if fr.denominator == 1:
+            return int(fr)
+    return expr(e)
+
+
 def expr(e):
     if isinstance(e, str):
         if e == "t":
@@ -49,9 +64,9 @@ def expr(e):
             return a * b
         return a / b
     if k == "pw":
-        return get_piecewise_function([expr(b) for b in v[1]], [expr(b) for b in v[2]], x_axis=expr(v[0]))
+        return get_piecewise_function([lexpr(b) for b in v[1]], [lexpr(b) for b in v[2]], x_axis=expr(v[0]))
     if k == "lin":
-        return get_linear_interpolation_function([expr(b) for b in v[1]], [expr(b) for b in v[2]], x_axis=expr(v[0]))
+        return get_linear_interpolation_function([lexpr(b) for b in v[1]], [lexpr(b) for b in v[2]], x_axis=expr(v[0]))
     if k == "sig":
         # sigmoidal interpolation (implementation-side oracles only; the Gallina expression language has no such node)
         return get_sigmoidal_interpolation_function([expr(b) for b in v[1]], [expr(b) for b in v[2]], x_axis=expr(v[0]),
@@ -89,8 +104,8 @@ def build_strat(o):
     for c, adjs in (o.get("iadj") or {}).items():
         s.add_infectiousness_adjustments(c, {k: adj(a) for k, a in adjs.items()})
     if o.get("mix") is not None:
-        rows = [[expr(e) for e in row] for row in o["mix"]]
-        if all(isinstance(e, float) for row in rows for e in row):
+        rows = [[lexpr(e) for e in row] for row in o["mix"]]
+        if all(isinstance(e, (int, float)) for row in rows for e in row):
             s.set_mixing_matrix(np.array(rows))
         else:
             s.set_mixing_matrix(capture_array(rows))
@@ -295,6 +310,66 @@ def observe(m, o):
             except BaseException as e:  # noqa
                 res.append({"error": repr(e)[:200]})
         return {"kernels": res}
+    if k == "traced_library":
+        # property C19: the library's own time functions and series helpers inside a jit=True runner
+        # (under SUMMER2_VERIF_TAINT=1 time, state and parameters are tracers)
+        from summer2.functions import util as U, time as TF, derived as DV
+        from summer2.parameters import Function as Fn, DerivedOutput as DO
+        out = {}
+        P = Parameter
+        cases = {
+            "windowed_constant": lambda: Fn(U.windowed_constant, [Time, P("v"), P("a"), P("w")]),
+            "piecewise_scalar": lambda: TF.get_piecewise_scalar_function([P("a"), P("a") + P("w")], [0.0, P("v"), 1.0]),
+            "piecewise": lambda: TF.get_piecewise_function([P("a"), 7.0], [P("v"), 1.0, P("v") * 0.5]),
+            "linear": lambda: TF.get_linear_interpolation_function([0.0, P("a"), 9.0], [1.0, P("v"), 0.5]),
+            "sigmoidal": lambda: TF.get_sigmoidal_interpolation_function([0.0, P("a"), 9.0], [1.0, P("v"), 0.5], curvature=8.0),
+            "linear_of_state": lambda: TF.get_linear_interpolation_function([0.0, 50.0, 200.0], [1.0, P("v"), 0.5], x_axis=CompartmentValues[0]),
+        }
+        pv = {"v": 1.5, "a": 3.0, "w": 2.0}
+        pv2 = {"v": 0.75, "a": 4.5, "w": 1.0}
+        for name, mk in cases.items():
+            rec = {}
+            try:
+                mm = CompartmentalModel([0.0, 10.0], ["S", "I"], ["I"], timestep=1.0)
+                mm.set_initial_population({"S": 100.0, "I": 10.0})
+                try:
+                    rate = mk()
+                except TypeError:
+                    # piecewise_function takes Python callables: not expressible as graph arguments in this version
+                    rec["skipped"] = True
+                    out[name] = rec
+                    continue
+                mm.add_importation_flow("imp", rate, "S", split_imports=False)
+                mm.add_transition_flow("si", 0.1, "S", "I")
+                mm.request_output_for_compartments("prev", ["I"])
+                mm.request_function_output("prev_diff", Fn(DV.get_rolling_diff(2), [DO("prev")]))
+                mm.request_function_output("prev_roll", Fn(DV.get_rolling_reduction(jnp_mean, 3), [DO("prev")]))
+                runs = []
+                for solver in o["solvers"]:
+                    runner = mm.get_runner(pv, solver=solver, jit=True)
+                    for ps in (pv, pv2):
+                        res = runner._run_func(parameters=ps)
+                        runs.append({"outputs": [vec(row) for row in np.asarray(res["outputs"])],
+                                     "derived": {k2: vec(np.asarray(v)) for k2, v in res["derived_outputs"].items()}})
+                rec["runs"] = runs
+            except (KeyboardInterrupt, SystemExit):
+                raise
+            except BaseException as e:  # noqa
+                import traceback
+                import jax
+                root = e
+                while not isinstance(root, getattr(jax, "ConcretizationError", ())) and (getattr(root, "cause", None) or root.__cause__ or root.__context__):
+                    nxt = getattr(root, "cause", None) or root.__cause__ or root.__context__
+                    if not isinstance(nxt, BaseException):
+                        break
+                    root = nxt
+                frames = [f for f in traceback.extract_tb(root.__traceback__) if "/jaxshim/" not in f.filename and "impl.py" not in f.filename]
+                rec["error"] = {"concretization": isinstance(root, getattr(jax, "ConcretizationError", ())),
+                                "type": type(root).__name__, "message": str(root)[:300],
+                                "where": ["%s:%d %s" % (f.filename.split("site-packages/")[-1].replace("/repo/", ""), f.lineno, (f.line or "")[:100])
+                                          for f in frames[-3:]]}
+            out[name] = rec
+        return {"traced": out}
     if k == "traced_run":
         # property C19: with SUMMER2_VERIF_TAINT=1 the jax stand-in treats jit arguments, loop carries and cond / switch
         # operands as tracers; without it this is an ordinary run and serves as the reference
